@@ -26,7 +26,7 @@ impl<'a> Tape<'a> {
         Tape { cells, pos: 0, radices: None, digits: None, starved: 0 }
     }
 
-    fn from_digits(digits: &'a [u32]) -> Self {
+    pub fn from_digits(digits: &'a [u32]) -> Self {
         Tape { cells: &[], pos: 0, radices: Some(Vec::new()), digits: Some(digits), starved: 0 }
     }
 
